@@ -38,7 +38,9 @@ class InducingPointKernel(Kernel):
         if inducing_points.ndimension() == 1:
             inducing_points = inducing_points.unsqueeze(-1)
 
-        self.register_parameter(name="inducing_points", parameter=torch.nn.Parameter(inducing_points))
+        # clone: the parameter must not share storage with the caller's tensor (two models built from the same
+        # tensor, or a later in-place edit of it, would otherwise silently move this model's inducing points)
+        self.register_parameter(name="inducing_points", parameter=torch.nn.Parameter(inducing_points.detach().clone()))
         self.register_added_loss_term("inducing_point_loss_term")
 
     def _clear_cache(self):
